@@ -47,3 +47,63 @@ package doltdb
 //@     invariant 0 <= i && i < len(aSpec) && start <= i
 //@   loop 3
 //@     invariant 0 <= j && len(instructions) == loopold(len(instructions)) + j
+
+// ---- a commit and its working-set update land together (C21): the DoltDB-level operation performs exactly one
+// ref-mutating database call, the combined one. Every ref-mutating method of the database handle is a counted event.
+
+//@ ghost_global verif_ghost
+
+//@ func (hooksDatabase).CommitWithWorkingSet
+//@   property C21
+//@   trusted counted event (the datas-level operation is verified in store/datas)
+//@   modifies nothing
+//@   ghost_set verif_ghost.nMut = verif_ghost.nMut + 1
+//@   ghost_set verif_ghost.nCombined = verif_ghost.nCombined + 1
+//@ func (hooksDatabase).Commit
+//@   property C21
+//@   trusted counted event
+//@   modifies nothing
+//@   ghost_set verif_ghost.nMut = verif_ghost.nMut + 1
+//@ func (hooksDatabase).WriteCommit
+//@   property C21
+//@   trusted counted event
+//@   modifies nothing
+//@   ghost_set verif_ghost.nMut = verif_ghost.nMut + 1
+//@ func (hooksDatabase).SetHead
+//@   property C21
+//@   trusted counted event
+//@   modifies nothing
+//@   ghost_set verif_ghost.nMut = verif_ghost.nMut + 1
+//@ func (hooksDatabase).FastForward
+//@   property C21
+//@   trusted counted event
+//@   modifies nothing
+//@   ghost_set verif_ghost.nMut = verif_ghost.nMut + 1
+//@ func (hooksDatabase).Delete
+//@   property C21
+//@   trusted counted event
+//@   modifies nothing
+//@   ghost_set verif_ghost.nMut = verif_ghost.nMut + 1
+//@ func (hooksDatabase).UpdateWorkingSet
+//@   property C21
+//@   trusted counted event
+//@   modifies nothing
+//@   ghost_set verif_ghost.nMut = verif_ghost.nMut + 1
+//@ func (hooksDatabase).Tag
+//@   property C21
+//@   trusted counted event
+//@   modifies nothing
+//@   ghost_set verif_ghost.nMut = verif_ghost.nMut + 1
+//@ func (hooksDatabase).SetTuple
+//@   property C21
+//@   trusted counted event
+//@   modifies nothing
+//@   ghost_set verif_ghost.nMut = verif_ghost.nMut + 1
+
+//@ func (*DoltDB).CommitWithWorkingSet
+//@   property C21
+//@   at call CommitWithWorkingSet: assert arg2:datas.Dataset == headDs && arg3:datas.Dataset == wsDs && arg6:hash.Hash == prevHash
+//@   ensures  verif_ghost.nMut - old(verif_ghost.nMut) == verif_ghost.nCombined - old(verif_ghost.nCombined)
+//@   ensures  verif_ghost.nCombined - old(verif_ghost.nCombined) <= 1
+//@   ensures  result1 == nil ==> verif_ghost.nCombined == old(verif_ghost.nCombined) + 1
+//@   also_modifies verif_ghost.nMut, verif_ghost.nCombined
